@@ -8,6 +8,11 @@ ops (elements are opaque words, hex on the Go side):
   iter  <stop|-> <resp>*   model of Iter      resp = p<cursor> | p<cursor>:<e1>,<e2>,… | e:<name>
   iter2 <stop|-> <resp>*   model of Iter2
   !iter / !iter2           the specification (Rv.Spec.Scanner.specIter/specIter2)
+  seq <n> (<iter|iter2> <stop|->){n} <resp>*    n consecutive iterations over the SAME Scanner; the server is
+                           cursor-keyed (entry i answers the cursor returned by entry i-1, entry 0 answers 0),
+                           which is the script served in order iff the request cursors are distinct
+                           (otherwise: bad-op:dup-cursor); answers joined by " | "
+  !seq …                   the specification: every iteration is specIter/specIter2 from cursor 0
 answer: y=<n>:<items> c=<cursors> err=<-|name>
 -/
 
@@ -28,8 +33,36 @@ def render {β : Type} (f : β → String) (o : Out β) : String :=
     ++ " c=" ++ ",".intercalate (o.cursors.map toString)
     ++ " err=" ++ (o.err.getD "-")
 
+def parseReqs : Nat → List String → Option (List Req × List String)
+  | 0, ws => some ([], ws)
+  | n + 1, op :: st :: ws => do
+    let stop ← parseStop st
+    let r ← if op == "iter" then some (Req.iter stop) else if op == "iter2" then some (Req.iter2 stop) else none
+    let (rs, ws') ← parseReqs n ws
+    pure (r :: rs, ws')
+  | _, _ => none
+
+def renderRes : Res → String
+  | .items o => render id o
+  | .pairs o => render (fun p => p.1 ++ "+" ++ p.2) o
+
+def stepSeq (spec : Bool) (n : String) (ws : List String) : String :=
+  (do
+    let n ← n.toNat?
+    let (reqs, rs) ← parseReqs n ws
+    let script ← rs.mapM parseResp
+    if ¬ (reqCursors script 0).Nodup then pure "bad-op:dup-cursor" else
+    let res :=
+      if spec then reqs.map fun (r : Req) => match r with
+        | Req.iter stop => Res.items (Spec.Scanner.specIter script stop)
+        | Req.iter2 stop => Res.pairs (Spec.Scanner.specIter2 script stop)
+      else (runSeq ⟨none⟩ script reqs).1
+    pure (" | ".intercalate (res.map renderRes))).getD "bad-op"
+
 def step (_ : Unit) (ws : List String) : Unit × String :=
   match ws with
+  | "seq" :: n :: rest => ((), stepSeq false n rest)
+  | "!seq" :: n :: rest => ((), stepSeq true n rest)
   | op :: st :: rs =>
     match parseStop st, rs.mapM parseResp with
     | some stop, some script =>
